@@ -41,6 +41,11 @@ ERRS = {
     "start-flow-bad-arg": "start vhelper2 1/0",
     "umim-param-wrong-type": "start UtteranceBotAction(script=5)",
     "if-bad-cond": "if 1/0 > 0\n{ind}  $z = 1",
+    # the faulty element belongs to a compound statement that is the FIRST statement of its flow (nothing before it in that flow)
+    "callee-leading-if-cond": 'await vcallee cond "12"',
+    "callee-leading-if-body": "await vcallee body 1",
+    "callee-leading-elif-cond": "await vcallee elif 0",
+    "callee-leading-when-body": "await vcallee when 1",
     "bad-regex-match": 'match G(x=regex("("))',
     "unknown-ref-match": "match $nope.Finished()",
     "bad-member": "match $a.Finished()",
@@ -90,6 +95,38 @@ flow vhelper
 @loop("v")
 flow vhelper2 $p
   match Never()
+
+@loop("v")
+flow vcallee cond $value
+  if $value > 3
+    $z = 1
+  match Never()
+
+@loop("v")
+flow vcallee body $value
+  if $value == 1
+    $z = 1/0
+  match Never()
+
+@loop("v")
+flow vcallee elif $value
+  if $value == 1
+    $z = 1
+  elif $value.nothing > 2
+    $z = 2
+  else
+    $z = 3
+  match Never()
+
+@loop("v")
+flow vcallee when $value
+  when vhelper3
+    $z = 1/0
+  match Never()
+
+@loop("v")
+flow vhelper3
+  $q = 1
 
 @loop("v")
 flow victim
@@ -144,7 +181,7 @@ def render_victim(lines, inject=None):
 
 # ------------------------------------------------------------------ termination programs
 def gen_term(rng):
-    kind = rng.choice(["loops", "recursion", "act-finish", "act-fail", "mutual", "hier", "act-conflict", "act-internal-wait", "act-misc"])
+    kind = rng.choice(["loops", "recursion", "act-finish", "act-fail", "mutual", "hier", "act-conflict", "act-internal-wait", "act-misc", "err-handler"])
     meta = {"kind": kind, "fails_before_wait": False, "activated_never_waiting": False}
     if kind == "loops":
         d = rng.randint(1, 3)
@@ -187,6 +224,17 @@ def gen_term(rng):
     elif kind == "act-misc":
         body = rng.choice(["  send Ping()\n", "  await FaAction()\n", "  start fb\n  abort\n", "  start FaAction() as $a\n  match $a.Finished()\n  send Pong()\n", "  match E2()\n  abort\n"])
         src = "flow main\n  activate fa\n  match E1()\n  send Done()\n  match Never()\n\nflow fa\n%s\nflow fb\n  match E3()\n" % body
+    elif kind == "err-handler":
+        # an activated flow that reacts to ColangError events (the documented way to notice runtime errors); in half of the
+        # programs the handler itself contains a faulty statement, i.e. its own failure produces the event it waits for
+        bad = rng.random() < 0.5
+        hbody = rng.choice(["  $z = 1/0\n", "  send Report(x=$nothing.y)\n", '  $z = "a" + 1\n']) if bad else rng.choice(["  send Report(t=$e.type)\n", "  $seen = 1\n"])
+        src = (
+            "flow main\n  activate handler\n  start victim\n  match Never()\n\n"
+            "flow handler\n  match ColangError() as $e\n%s\n" % hbody
+            + "flow victim\n  match E%d()\n  $y = 1/0\n" % rng.randint(1, 3)
+        )
+        meta["error_handler_raises"] = bad
     elif kind == "act-conflict":
         # an activated flow without external wait that loses an action conflict against its activator
         src = (
@@ -580,6 +628,8 @@ def classify(r):
             return "activated-flow-fails-before-first-wait"
         if m.get("activated_internal_wait_only"):
             return "activated-flow-without-external-wait"
+        if m.get("error_handler_raises"):
+            return "activated-error-handler-that-raises"
         return "nontermination:" + str(m.get("kind"))
     if r.get("kind") in MATCH_TIME:
         return "error-outside-slide-not-contained"
